@@ -253,10 +253,12 @@ def gen(rng):
         tagw, tagx = 2, 1
     else:
         far = (rng.uniform(2, 5), rng.uniform(-1, 1), top + rng.uniform(-0.5, 0.5))
+        # ... or with a coordinate that differs in the seventh digit only (still two different numbers for BASIC)
+        topj = top * (1 + rng.choice([0.0, 0.0, 4e-7, -3e-7]))
         if rng.random() < 0.5:
-            args += ['-w', '%d,%r,0,%r,%r,%r,%r,0.002' % ((n2, off, top) + far)]
+            args += ['-w', '%d,%r,0,%r,%r,%r,%r,0.002' % ((n2, off, topj) + far)]
         else:
-            args += ['-w', '%d,%r,%r,%r,%r,0,%r,0.002' % ((n2,) + far + (off, top))]
+            args += ['-w', '%d,%r,%r,%r,%r,0,%r,0.002' % ((n2,) + far + (off, topj))]
         tagw, tagx = 1, 2
         if kind == 'taper':
             args.append('--taper-wire=2,%d,0.4' % rng.choice([1, 2, 3]))
